@@ -127,6 +127,9 @@ type syncInput struct {
 	RefspecForce bool  `json:"refspecForce"` // fetch: the refspec for remote-tracking refs carries '+'
 	FetchTags bool     `json:"fetchTags"`    // fetch: refs/tags/*:refs/tags/* is among the refspecs
 	ForcedDsts []string `json:"forcedDsts"`  // fetch with explicit per-branch refspecs: destinations whose refspec carries '+'
+	ShallowClone bool   `json:"shallowClone"`
+	MainOnly bool       `json:"mainOnly"`
+	ExpTag bool         `json:"expTag"` // the remote has a tag on the second branch, outside the fetched refspecs
 	DevRelation string  `json:"devRelation"` // "", equal, ahead, unrelated, rewound: second branch `dev` on the remote
 	MaxPack uint64     `json:"maxPackfileSize"`
 	DenyNonFF bool     `json:"denyNonFastForwards"`
@@ -209,8 +212,10 @@ func runSyncCase(seed int64, thorough bool) (*syncInput, Res) {
 		srv := NewRefServer(sdb, srs, in.MaxPack, in.DenyNonFF)
 		defer srv.Close()
 		common := 1 + r.Intn(3)
+		baseTables := []*TableSpec{}
 		for i := 0; i < common; i++ {
 			t := smallTable(r, fmt.Sprintf("base%d", i))
+			baseTables = append(baseTables, t)
 			if err := opCommit(t.CSV(0), t.PK, 1, "main")(sdb, srs); err != nil {
 				return Err("server-commit")
 			}
@@ -250,7 +255,13 @@ func runSyncCase(seed int64, thorough bool) (*syncInput, Res) {
 				return Res{"res": "err", "kind": "setup:" + strings.Join(a, " ") + ":" + out + err.Error()}
 			}
 		}
-		if out, err := cli(dir, "pull", "main", "origin", "refs/heads/main:refs/remotes/origin/main", "--set-upstream"); err != nil {
+		pullArgs := []string{"pull", "main", "origin", "refs/heads/main:refs/remotes/origin/main", "--set-upstream"}
+		if common >= 2 && r.Intn(3) == 0 {
+			// a shallow clone: older commits arrive without their tables
+			in.ShallowClone = true
+			pullArgs = append(pullArgs, "--depth", "1")
+		}
+		if out, err := cli(dir, pullArgs...); err != nil {
 			return Res{"res": "err", "kind": "setup-pull:" + out + ":" + err.Error()}
 		}
 		if hasTag && r.Intn(4) != 0 {
@@ -290,6 +301,11 @@ func runSyncCase(seed int64, thorough bool) (*syncInput, Res) {
 				}
 			}
 		}
+		if hasDev && (in.DevRelation == "ahead" || in.DevRelation == "unrelated") && r.Intn(2) == 0 {
+			h, _ := ref.GetHead(srs, dev)
+			ref.SaveTag(srs, "exp", h)
+			in.ExpTag = true
+		}
 		// --- diverge -------------------------------------------------------------------------------
 		in.Action = []string{"fetch", "fetch", "push", "push", "pull", "merge"}[r.Intn(6)]
 		in.Relation = []string{"remote-ahead", "local-ahead", "diverged", "equal", "unrelated"}[r.Intn(5)]
@@ -323,6 +339,10 @@ func runSyncCase(seed int64, thorough bool) (*syncInput, Res) {
 		}
 		for i := 0; i < nRemote; i++ {
 			t := smallTable(r, fmt.Sprintf("remote%d", i))
+			if r.Intn(3) == 0 {
+				// a revert: the new commit re-uses the table of an earlier commit
+				t = baseTables[r.Intn(len(baseTables))]
+			}
 			if err := opCommit(t.CSV(0), t.PK, 1, "main")(sdb, srs); err != nil {
 				return Err("server-commit2")
 			}
@@ -374,7 +394,18 @@ func runSyncCase(seed int64, thorough bool) (*syncInput, Res) {
 				}
 				args = append([]string{"fetch", "origin"}, specs...)
 			}
-			if in.FetchTags {
+			if hasDev && r.Intn(4) == 0 {
+				// only `main` is fetched: the second branch (and a tag on it) stays outside the refspecs
+				in.RefspecForce = r.Intn(2) == 0
+				in.ForcedDsts = nil
+				s := "refs/heads/main:refs/remotes/origin/main"
+				if in.RefspecForce {
+					s = "+" + s
+				}
+				in.MainOnly = true
+				args = []string{"fetch", "origin", s}
+			}
+			if in.FetchTags && !in.MainOnly {
 				args = append(args, "refs/tags/*:refs/tags/*")
 			}
 			if in.Depth > 0 {
